@@ -191,6 +191,30 @@ def gen_history(draw, pp, cfg):
     return world, reads
 
 
+def near_boundary(world, op, cfgs, K):
+    """is the request of this op within K storage grains (of either configuration, expressed in the request's unit) of
+    the point where accept turns into refuse?  Decisions there legitimately depend on the configured grain."""
+    ref = world.ref
+    try:
+        v, fam = rparse.quantity(op['q'])
+        q = float(v)
+        if op['op'] == 'fill_to':
+            solvent = world.subs[op['solvent']].name
+            for _, w in bench.well_views(world, op['obj'])[0]:
+                b = world.base(w)
+                if abs(q - ref.size(b, fam)) <= K * grains(cfgs, world, set(b) | {solvent}, fam, ''):
+                    return True
+        elif op['op'] == 'transfer':
+            for _, w in bench.well_views(world, op['src'])[0]:
+                b = world.base(w)
+                G = K * grains(cfgs, world, set(b), fam, '')
+                if abs(ref.size(b, fam) - q) <= G or abs(q) <= G:
+                    return True
+    except Exception:  # noqa  (unreadable request, invalid selector: not a boundary question)
+        return False
+    return False
+
+
 def judge_history(col, world, reads, base, other, bw, ow, case):
     cfgs = [bw.cfg, ow.cfg]
     tag = ow.name
@@ -203,6 +227,9 @@ def judge_history(col, world, reads, base, other, bw, ow, case):
     for i, (a, b) in enumerate(zip(base['outcomes'], other['outcomes'])):
         ca, cb = a.split(':')[0], b.split(':')[0]
         if ca != cb:
+            if near_boundary(world, world.history[i], cfgs, K):
+                col.exclude('decision differs within a few storage grains of the feasibility boundary')
+                return
             col.report(f"config={tag}/decision-differs/{world.history[i]['op']}/{ca}-vs-{cb}",
                        {'op_index': i, 'baseline': a, 'other': b}, case)
             return
